@@ -116,6 +116,8 @@ def finish(res, tier, t0, replay_mode=False):
                     json.dump({"property": pid, "key": key, "what": vs[0].what,
                                "witness": jsonable(vs[0].witness),
                                "n_witnesses": len(vs)}, f, indent=1)
+            if replay_mode:
+                path = replay_mode if isinstance(replay_mode, str) else path
             viol_lines.append("VIOLATION property=%s replay=%s key=%s :: %s" % (pid, path, key, vs[0].what))
     for l in kf_lines:
         print(l)
@@ -152,55 +154,59 @@ def ncpu():
     return n or min(16, os.cpu_count() or 1)
 
 
-def _worker(fn, task, q, idx):
-    try:
-        r = fn(task)
-        q.put((idx, "ok", r))
-    except BaseException as e:  # noqa
-        q.put((idx, "err", "%s\n%s" % (repr(e), traceback.format_exc())))
+def _worker(fn, tasks, tq, rq):
+    while True:
+        idx = tq.get()
+        if idx is None:
+            return
+        try:
+            rq.put((idx, "ok", fn(tasks[idx])))
+        except BaseException as e:  # noqa
+            rq.put((idx, "err", "%s\n%s" % (repr(e), traceback.format_exc())))
 
 
 def pmap(fn, tasks, jobs=None, timeout=3000):
-    """Run fn(task) for every task in forked workers (fn and tasks are inherited
-    by fork, results must be picklable).  Order of results == order of tasks.
-    A worker that dies or exceeds the wall-clock watchdog is a ToolingError."""
+    """Run fn(task) for every task in long-lived forked workers (fn and tasks are
+    inherited by fork, results must be picklable).  Tasks are handed out in list
+    order, results come back in list order.  A worker that dies or the pool
+    exceeding the wall-clock watchdog is a ToolingError."""
     tasks = list(tasks)
-    jobs = jobs or ncpu()
-    if jobs <= 1 or len(tasks) <= 1:
+    jobs = min(jobs or ncpu(), len(tasks))
+    if jobs <= 1:
         return [fn(t) for t in tasks]
     ctx = mp.get_context("fork")
-    q = ctx.Queue()
+    tq, rq = ctx.Queue(), ctx.Queue()
+    for i in range(len(tasks)):
+        tq.put(i)
+    for _ in range(jobs):
+        tq.put(None)
+    procs = [ctx.Process(target=_worker, args=(fn, tasks, tq, rq), daemon=True) for _ in range(jobs)]
+    for p in procs:
+        p.start()
     results = [None] * len(tasks)
-    pending = list(range(len(tasks)))[::-1]
-    running = {}
     done = 0
     t_end = time.time() + timeout
     try:
         while done < len(tasks):
-            while pending and len(running) < jobs:
-                i = pending.pop()
-                p = ctx.Process(target=_worker, args=(fn, tasks[i], q, i), daemon=True)
-                p.start()
-                running[i] = p
             try:
-                idx, st, r = q.get(timeout=1.0)
+                idx, st, r = rq.get(timeout=1.0)
             except Exception:
                 if time.time() > t_end:
                     raise ToolingError("worker pool watchdog: %d tasks unfinished" % (len(tasks) - done))
-                for i, p in list(running.items()):
+                for p in procs:
                     if not p.is_alive() and p.exitcode not in (0, None):
-                        raise ToolingError("worker for task %d died with exit code %s" % (i, p.exitcode))
+                        raise ToolingError("a worker died with exit code %s" % p.exitcode)
                 continue
             if st == "err":
                 raise ToolingError("worker for task %d raised: %s" % (idx, r))
             results[idx] = r
             done += 1
-            p = running.pop(idx)
-            p.join()
     finally:
-        for p in running.values():
-            if p.is_alive():
+        for p in procs:
+            if p.is_alive() and done < len(tasks):
                 p.kill()
+        for p in procs:
+            p.join(5)
     return results
 
 
